@@ -1,18 +1,32 @@
-(* I/O-drawer commands of the extracted model (C16 hlog, C14 ilog).
-   hlog  <data> <size_1> <name_1> ... <size_n> <name_n>     -> JSON list of lines, or null (assertion)
-   The table travels as further arguments: sizes are big-endian numbers, names are UTF-8. *)
+(* I/O-drawer commands of the extracted model (C16 hlog, C14 ilog).  Tables travel as further arguments.
+   hlog  <data> <size_1> <name_1> ... <size_n> <name_n>            -> list of lines, or null (assertion)
+   ilog  <data> <pattern_1> <format_1> <params_1> ...             -> list of lines | {"unsupported":true}
+                                                                     | null (assertion) | {"fuel":true}
+   ilog_entry <pte> <pattern> <format> <params>                    -> {"supported":b,"matches":b,"message":s|null}
+   pyfmt <format> <arg_1> ... <arg_n>                              -> {"ok":s} | "error" | "unsupported"
+   timestamp <t>                                                   -> string
+   Numbers are big-endian byte strings, texts are UTF-8, params is one byte per parameter. *)
 From Coq Require Import List NArith ZArith Bool.
-From PV Require Import Base.Bytes Base.Lit Base.Json Base.Utf8 Model.Hexdump Model.Hlog.
+From PV Require Import Base.Bytes Base.Lit Base.Json Base.Utf8 Base.PyFmt Model.Hexdump Model.Hlog Model.Ilog.
 Import ListNotations.
 Open Scope N_scope.
 
 Definition io_text (b : bytes) : text := match utf8_decode b with Some t => t | None => L "<bad utf8>" end.
+Definition io_num (b : bytes) : N := be_val b 0.
 
 Fixpoint hlog_table (args : list bytes) : list hfield :=
   match args with
-  | size :: name :: t => (io_text name, N.to_nat (be_val size 0)) :: hlog_table t
+  | size :: name :: t => (io_text name, N.to_nat (io_num size)) :: hlog_table t
   | _ => []
   end.
+
+Fixpoint ilog_table (args : list bytes) : list pte_entry :=
+  match args with
+  | pat :: fmt :: params :: t => (io_text pat, io_text fmt, params) :: ilog_table t
+  | _ => []
+  end.
+
+Definition unsupported_json : json := JObj [(L "unsupported", JBool true)].
 
 Definition run_io (cmd : text) (args : list bytes) : option text :=
   if text_eqb cmd (L "hlog") then
@@ -20,4 +34,28 @@ Definition run_io (cmd : text) (args : list bytes) : option text :=
          | Some ls => render (jstrs ls)
          | None => L "null"
          end
+  else if text_eqb cmd (L "ilog") then
+    Some (render match parse_ilog (ilog_table (tl args)) (hd [] args) with
+                 | IOk ls => jstrs ls
+                 | IUnsupported => unsupported_json
+                 | IAssert => JNull
+                 | IOutOfFuel => JObj [(L "fuel", JBool true)]
+                 end)
+  else if text_eqb cmd (L "ilog_entry") then
+    Some (render match ilog_table (tl args) with
+                 | e :: _ =>
+                     let pte := io_num (hd [] args) in
+                     JObj [(L "supported", JBool (pat_supported (e_pat e)));
+                           (L "matches", JBool (matches e pte));
+                           (L "message", match get_message e pte with DOk m => JStr m | DUnsupported => JNull end)]
+                 | [] => JNull
+                 end)
+  else if text_eqb cmd (L "pyfmt") then
+    Some (render match pyfmt (io_text (hd [] args)) (map io_num (tl args)) with
+                 | FOk t => JObj [(L "ok", JStr t)]
+                 | FError => JStr (L "error")
+                 | FUnsupported => JStr (L "unsupported")
+                 end)
+  else if text_eqb cmd (L "timestamp") then
+    Some (render (JStr (format_timestamp (io_num (hd [] args)))))
   else None.
